@@ -2,7 +2,7 @@
 import ast
 
 from ..loader import AnalysisError, attr_path, src, walk_no_nested_defs, norm_stmt, call_name
-from ..symx import SymX, classify, show, C, TRUE, FALSE, simp, mk_mul, mk_add, negate, UNBOUND, is_const, mentions
+from ..symx import SymX, classify, show, C, TRUE, FALSE, simp, mk_mul, mk_add, negate, UNBOUND, is_const, mentions, strip_perm
 from ..nf import SELF_NEXT, SF
 from . import kernels as K
 from . import C07, shared
@@ -27,6 +27,15 @@ SOLVER_VIR = "tad.py::Solver.value_iteration_reachability"
 SOLVER_SR = "tad.py::Solver.solve_reachability"
 
 
+def _init_le0_or_own(i):
+    # max(old own value, successors): iterates from below stay below the least fixed point and still converge to it
+    # (the limit is the least pre-fixed point), so seeding the maximum with the state's current value is harmless
+    return K.INIT_LE0(i) or i == ("attr", ("v", "self"), REACH)
+
+
+_init_le0_or_own.text = K.INIT_LE0.text + ", or the state's own current value"
+
+
 def r1_kernels(ctx, chk, rule="C01.1"):
     roles = K.role_classes(ctx)
     for role, cls in roles.items():
@@ -39,7 +48,7 @@ def r1_kernels(ctx, chk, rule="C01.1"):
             K.check_fold(chk, rule, where, kf, what, kind="SUM", term=term, init_ok=K.INIT_CONST(0), allow_neutral_filter=True,
                          found_text=show(k.ret))
         elif role == "max":
-            K.check_fold(chk, rule, where, kf, what, kind="EXT", sense="max", term=SF(REACH), init_ok=K.INIT_LE0, found_text=show(k.ret))
+            K.check_fold(chk, rule, where, kf, what, kind="EXT", sense="max", term=SF(REACH), init_ok=_init_le0_or_own, found_text=show(k.ret))
         else:
             K.check_fold(chk, rule, where, kf, what, kind="EXT", sense="min", term=SF(REACH), init_ok=K.INIT_GE1, found_text=show(k.ret))
 
@@ -271,7 +280,8 @@ def sweep_nf(ctx, chk, rule, qual, fields, kernel_meth, domain_is_param):
         chk.violation(rule, fwhere, "the per-sweep maximum starts from `%s` instead of being reset to 0 in each sweep: once large, the change never decreases / or changes are under-reported" % show(fo.init),
                       expected="max_diff = 0 at the start of every sweep", found=show(fo.init), construct="%s change reset" % f.short)
         return None
-    if F.filter != TRUE or not F.whole or F.has_break or F.has_return:
+    whole = F.whole or strip_perm(F.source) != F.source
+    if F.filter != TRUE or not whole or F.has_break or F.has_return:
         chk.violation(rule, fwhere, "the sweep skips states (filter `%s`%s%s)" % (show(F.filter), ", slice" if not F.whole else "", ", early exit" if F.has_break or F.has_return else ""),
                       expected="every state of the domain is updated in every sweep", found=norm_stmt(F.node), construct="%s sweep partial" % f.short)
         return None
@@ -299,7 +309,7 @@ def r4_sweep(ctx, chk, rule="C01.4"):
         return
     f, sx, W, F, fo, where = r["f"], r["sx"], r["W"], r["F"], r["fold"], r["where"]
     dom_param = f.params[1]
-    if F.source != ("v", dom_param):
+    if strip_perm(F.source) != ("v", dom_param):      # the order of a Gauss-Seidel sweep does not change its limit
         chk.violation(rule, where, "the sweep iterates `%s`, not the search result `%s`" % (show(F.source), dom_param),
                       expected="for s in %s" % dom_param, found=show(F.source), construct="value_iteration_reachability sweep domain")
         return
@@ -393,6 +403,8 @@ def run(ctx, chk):
     r3_writers(ctx, chk)
     r4_sweep(ctx, chk)
     r5_flag(ctx, chk)
+    from . import C02
+    C02.solve_slot(ctx, chk, "C01.6", 3, REACH, "solve_reachability", "reachability probabilities")
     # prerequisites: the sweep domain is complete and final-free
     C07.r2_roots(ctx, chk, "C01.pre:C07.2")
     C07.r4_result(ctx, chk, "C01.pre:C07.4")
